@@ -57,24 +57,26 @@ def parseHexDigits : Str → Nat → Option Nat
     | none => none
     | some d => if acc * 16 + d ≤ 255 then parseHexDigits cs (acc * 16 + d) else none
 
-/-- `u8::from_str_radix(s, 16).ok()`: optional leading `+`, at least one digit, value ≤ 255 -/
-def u8FromStrRadix16 (s : Str) : Option Nat :=
-  match s with
-  | [] => none
-  | [43] => none
-  | [45] => none
-  | 43 :: rest => parseHexDigits rest 0
-  | _ => parseHexDigits s 0
+/-- the closure `parse` of `get_u8_parts`: every character an ASCII hex digit, then
+`u8::from_str_radix(part, 16)` (which fails on the empty string and on overflow) -/
+def Hex.parsePart (s : Str) : Option Nat :=
+  if s.all (fun c => (hexDigitVal c).isSome) then
+    (match s with
+     | [] => none
+     | _ => parseHexDigits s 0)
+  else none
 
 def Hex.errMsg : Str :=
   [83,111,109,101,32,99,111,108,111,114,32,99,111,117,108,100,32,110,111,116,32,98,101,32,112,97,114,115,101,100]
 
-/-- `get_u8_parts` -/
+/-- `get_u8_parts` (error payloads are not modelled beyond the variant) -/
 def Hex.get_u8_parts (s0 : Str) : Except LError (Nat × Nat × Nat) :=
   let s := Hex.strip s0
   match Str.getRange s 0 2, Str.getRange s 2 4, Str.getRange s 4 6 with
   | some r, some g, some b =>
-    .ok ((u8FromStrRadix16 r).getD 0, (u8FromStrRadix16 g).getD 0, (u8FromStrRadix16 b).getD 0)
+    (match Hex.parsePart r, Hex.parsePart g, Hex.parsePart b with
+     | some r, some g, some b => .ok (r, g, b)
+     | _, _, _ => .error (LError.Hex []))
   | _, _, _ => .error (LError.Hex Hex.errMsg)
 
 /-- `impl TryFrom<Hex> for Rgb` -/
